@@ -247,7 +247,8 @@ func runValues(c *Ctx) {
 						if !c.Begin("values", t.name) {
 							continue
 						}
-						valuesCase(c, t, asOpt, nz == 1, el, cmdlines[ci], cmdvals[ci])
+						valuesCase(c, t, asOpt, nz == 1, el, cmdlines[ci], cmdvals[ci], false)
+						valuesCase(c, t, asOpt, nz == 1, el, cmdlines[ci], cmdvals[ci], true)
 					}
 				}
 			}
@@ -261,12 +262,13 @@ func replayValues(c *Ctx, cs Case) {
 		if t.name == cStr(cs, "type") {
 			opt, _ := cs["opt"].(bool)
 			nz, _ := cs["nonzero"].(bool)
-			valuesCase(c, t, opt, nz, cStrs(cs, "env"), cStrs(cs, "cmdline"), cStrs(cs, "cmdvals"))
+			nested, _ := cs["nested"].(bool)
+			valuesCase(c, t, opt, nz, cStrs(cs, "env"), cStrs(cs, "cmdline"), cStrs(cs, "cmdvals"), nested)
 		}
 	}
 }
 
-func valuesCase(c *Ctx, t *vtype, asOpt, nz bool, envList, cmdline, cmdvals []string) {
+func valuesCase(c *Ctx, t *vtype, asOpt, nz bool, envList, cmdline, cmdvals []string, nested bool) {
 	var envNames []string
 	for i, st := range envList {
 		name := fmt.Sprintf("VQ_E%d", i+1)
@@ -277,22 +279,47 @@ func valuesCase(c *Ctx, t *vtype, asOpt, nz bool, envList, cmdline, cmdvals []st
 	}
 	app := cli.App("app", "")
 	app.ErrorHandling = flag.ContinueOnError
-	sbu := false
+	sbu, rootSBU := false, false
 	var read func() string
-	if asOpt {
-		read = t.decl(app.Cmd, true, "x xx", strings.Join(envNames, " "), nz, &sbu)
-		app.Spec = "[-x...]"
-	} else {
-		read = t.decl(app.Cmd, false, "X", strings.Join(envNames, " "), nz, &sbu)
-		app.Spec = "[X...]"
+	declare := func(cmd *cli.Cmd) {
+		if asOpt {
+			read = t.decl(cmd, true, "x xx", strings.Join(envNames, " "), nz, &sbu)
+			cmd.Spec = "[-x...]"
+		} else {
+			read = t.decl(cmd, false, "X", strings.Join(envNames, " "), nz, &sbu)
+			cmd.Spec = "[X...]"
+		}
 	}
+	ran, got, gotSBU, gotRoot := 0, "", false, false
+	action := func() { ran++; got = read(); gotSBU = sbu; gotRoot = rootSBU }
+	argv := append([]string{"app"}, cmdline...)
+	rootGiven := false
+	if nested {
+		// the item is declared on a sub-command (initialised lazily, during Run); the root has its own flag
+		app.Bool(cli.BoolOpt{Name: "r", SetByUser: &rootSBU})
+		app.Spec = "[-r]"
+		app.Command("sub", "", func(sub *cli.Cmd) {
+			declare(sub)
+			sub.Action = action
+		})
+		rootGiven = len(cmdline)%2 == 1
+		argv = []string{"app"}
+		if rootGiven {
+			argv = append(argv, "-r")
+		}
+		argv = append(append(argv, "sub"), cmdline...)
+	} else {
+		declare(app.Cmd)
+		app.Action = action
+		for _, n := range envNames {
+			os.Unsetenv(n)
+		}
+	}
+	sharedBuf.Reset()
+	o := runDirect(&sharedBuf, func() error { return app.Run(argv) })
 	for _, n := range envNames {
 		os.Unsetenv(n)
 	}
-	ran, got, gotSBU := 0, "", false
-	app.Action = func() { ran++; got = read(); gotSBU = sbu }
-	sharedBuf.Reset()
-	o := runDirect(&sharedBuf, func() error { return app.Run(append([]string{"app"}, cmdline...)) })
 
 	// reference (10 lines)
 	want, source := t.dflt[map[bool]int{false: 0, true: 1}[nz]], "default"
@@ -308,8 +335,11 @@ func valuesCase(c *Ctx, t *vtype, asOpt, nz bool, envList, cmdline, cmdvals []st
 	}
 	kind := map[bool]string{true: "opt", false: "arg"}[asOpt]
 	key := fmt.Sprintf("type=%s kind=%s default=%s env=[%s] cmdline=%v", t.name, kind, map[bool]string{false: "zero", true: "nonzero"}[nz], strings.Join(envList, ","), cmdline)
+	if nested {
+		key += " on-subcommand"
+	}
 	cs := func() Case {
-		return Case{"type": t.name, "opt": asOpt, "nonzero": nz, "env": envList, "cmdline": cmdline, "cmdvals": cmdvals}
+		return Case{"type": t.name, "opt": asOpt, "nonzero": nz, "env": envList, "cmdline": cmdline, "cmdvals": cmdvals, "nested": nested}
 	}
 	offers := 0
 	if len(cmdvals) > 0 {
@@ -343,8 +373,38 @@ func valuesCase(c *Ctx, t *vtype, asOpt, nz bool, envList, cmdline, cmdvals []st
 	if c.On("C06") && got != want {
 		c.Violation("C06", key, cs(), fmt.Sprintf("%s (from the %s)", want, source), got)
 	}
-	if c.On("C15") && gotSBU != (len(cmdvals) > 0) {
-		c.Violation("C15", key, cs(), fmt.Sprintf("SetByUser=%v", len(cmdvals) > 0), fmt.Sprintf("SetByUser=%v", gotSBU))
+	if c.On("C15") && (gotSBU != (len(cmdvals) > 0) || (nested && gotRoot != rootGiven)) {
+		c.Violation("C15", key, cs(), fmt.Sprintf("SetByUser=%v (root flag: %v)", len(cmdvals) > 0, rootGiven), fmt.Sprintf("SetByUser=%v (root flag: %v)", gotSBU, gotRoot))
+	}
+	// a second parse on the same application: command-line values replace whatever the first parse left
+	if !nested {
+		var argv2 []string
+		if asOpt {
+			argv2 = append([]string{"app"}, optSpellings(t, t.cmd[1])[0]...)
+		} else {
+			argv2 = []string{"app", t.cmd[1]}
+		}
+		ran = 0
+		sharedBuf.Reset()
+		o2 := runDirect(&sharedBuf, func() error { return app.Run(argv2) })
+		want2 := t.expect([]string{t.cmd[1]})
+		for _, p := range []string{"C06", "C15"} {
+			if c.On(p) {
+				c.Count(p+":second_parses", 1)
+			}
+		}
+		if !(o2.Returned && o2.Err == nil && ran == 1) {
+			if c.On("C06") {
+				c.Violation("C06", key+fmt.Sprintf(" then second Run %v", argv2[1:]), cs(), "the second command line is valid: the Action runs once", fmt.Sprintf("returned=%v err=%v ran=%d panic=%v", o2.Returned, o2.Err, ran, safeSprint(o2.PanicVal)))
+			}
+		} else {
+			if c.On("C06") && got != want2 {
+				c.Violation("C06", key+fmt.Sprintf(" then second Run %v", argv2[1:]), cs(), want2+" (exactly the values of the second command line)", got)
+			}
+			if c.On("C15") && !gotSBU {
+				c.Violation("C15", key+fmt.Sprintf(" then second Run %v", argv2[1:]), cs(), "SetByUser=true", "SetByUser=false")
+			}
+		}
 	}
 	if offers >= 2 && c.WantSample(t.name+"-"+kind) {
 		c.Sample(t.name+"-"+kind, Case{"case": key, "value": got, "source": source, "SetByUser": gotSBU})
